@@ -49,12 +49,12 @@ def run(tier):
         orc = Oracle(wd)
         rcpts = G.Recipients(orc, r, 2 if tier == "quick" else 6)
         rec = L.Rec()
-        classes = ["generic", "z1", "z2", "z15"]
+        classes = ["generic", "z1", "z2", "z15", "default-object", "zero"]
         nfiles = 0
         rounds = 3 if tier == "quick" else 6
         for rnd in range(rounds):
             for kinds in C.ORDERINGS:
-                for kc in (classes if tier == "thorough" else [classes[(rnd + len(kinds)) % 4], r.choice(classes)]):
+                for kc in (classes if tier == "thorough" else [classes[(rnd + len(kinds)) % len(classes)], r.choice(classes)]):
                     plan = G.Plan(r, rcpts, kinds, key_cls=kc, explicit_key=True)
                     f, text, _ = C.write_plan(rec, seams, orc, r, plan)
                     nfiles += 1
